@@ -178,4 +178,5 @@ def short(case):
             out.append('%s=NULL' % k)
         else:
             out.append('%s=%s' % (k, v))
-    return ' '.join(out)
+    h = hashlib.sha256(json.dumps(enc_case(case), sort_keys=True).encode()).hexdigest()[:6]
+    return ' '.join(out) + ' #' + h
